@@ -708,24 +708,45 @@ func c06r5(c *Ctx) {
 	xc := p.Struct(pkgModel, "XdsCacheImpl")
 	for _, m := range []string{"Clear", "ClearAll"} {
 		fn := p.Func(pkgModel, "XdsCacheImpl", m)
-		reads := effectsOfFuncs([]*ssa.Function{fn}).Reads // value receiver: go/ssa spills it, so use the function's own effect set
+		// value receiver: go/ssa spills it, so use the function's own effect set - and that of the methods of the same
+		// type it calls (a branch extracted into a helper method)
+		own := []*ssa.Function{fn}
+		for _, g := range p.CG().Callees(fn) {
+			if funcPkgPath(g) == funcPkgPath(fn) && len(g.Blocks) > 0 && g.Signature.Recv() != nil && strings.Contains(g.Signature.Recv().Type().String(), "XdsCacheImpl") {
+				own = append(own, g)
+			}
+		}
+		reads := effectsOfFuncs(own).Reads
 		for _, f := range fieldsOf(xc) {
 			_, ok := reads[f]
 			c.Check("XdsCacheImpl."+m+" covers "+f.Name(), fn.Pos(), ok, "typed cache "+f.Name()+" is not touched by XdsCacheImpl."+m)
 			// ... on every path: no condition decides whether a typed cache is invalidated at all (which entries go is
 			// decided by the typed cache's own dependency index)
 			f := f
-			isClearOfF := func(i ssa.Instruction) bool {
-				call, isCall := i.(*ssa.Call)
-				if !isCall || !call.Call.IsInvoke() {
-					return false
+			var clearsOnEveryPath func(g *ssa.Function, depth int) bool
+			isClearOfFIn := func(depth int) func(i ssa.Instruction) bool {
+				return func(i ssa.Instruction) bool {
+					call, isCall := i.(*ssa.Call)
+					if !isCall {
+						return false
+					}
+					if !call.Call.IsInvoke() {
+						// a method of the same type that clears f on every path of its own
+						sc := call.Call.StaticCallee()
+						return depth < 2 && sc != nil && len(sc.Blocks) > 0 && funcPkgPath(sc) == funcPkgPath(fn) && sc.Signature.Recv() != nil &&
+							strings.Contains(sc.Signature.Recv().Type().String(), "XdsCacheImpl") && clearsOnEveryPath(sc, depth+1)
+					}
+					if n := call.Call.Method.Name(); n != "Clear" && n != "ClearAll" {
+						return false
+					}
+					return fieldOfLoad(call.Call.Value) == f
 				}
-				if n := call.Call.Method.Name(); n != "Clear" && n != "ClearAll" {
-					return false
-				}
-				return fieldOfLoad(call.Call.Value) == f
 			}
-			bad, found := pathAvoidingE(fn.Blocks[0], nil, isClearOfF, isReturn, nil, nil)
+			clearsOnEveryPath = func(g *ssa.Function, depth int) bool {
+				_, found := pathAvoidingE(g.Blocks[0], nil, isClearOfFIn(depth), isReturn, nil, nil)
+				return !found
+			}
+			bad, found := pathAvoidingE(fn.Blocks[0], nil, isClearOfFIn(0), isReturn, nil, nil)
 			pos := fn.Pos()
 			if found && bad != nil {
 				pos = bad.Pos()
